@@ -107,11 +107,14 @@ def unit_classify(U):
             feat = z3.And(z3.Not(stop), z3.Not(direc), z3.Not(skip))
             kind, ys, ds = r["kind"], r["yields"], r["directives"]
             same_dirs = ds == old
-            is_stop = kind == "return" and not ys and same_dirs
+            # how the body ended is abstracted to: the pass stops / the loop goes on to the next line
+            # ('continue' and falling off the end of the body are the same thing)
+            goes_on = kind in ("continue", "next")
+            is_stop = kind in ("return", "break") and not ys and same_dirs
             appended = len(ds) == len(old) + 1 and ds[:len(old)] == old
-            is_dir = kind == "continue" and not ys and appended
-            is_skip = kind == "continue" and not ys and same_dirs
-            is_feat = kind == "next" and len(ys) == 1 and same_dirs and isinstance(ys[0], tuple) and ys[0][0] == "feature"
+            is_dir = goes_on and not ys and appended
+            is_skip = goes_on and not ys and same_dirs
+            is_feat = goes_on and len(ys) == 1 and same_dirs and isinstance(ys[0], tuple) and ys[0][0] == "feature"
             dir_text = _streq(ds[-1], SStr([Val(z3.SubString(b, 2, z3.Length(b) - 2))])) if appended else z3.BoolVal(False)
             feat_arg = _streq(ys[0][1], SStr([Val(b)])) if is_feat else z3.BoolVal(False)
             goal = z3.And(z3.Implies(stop, z3.BoolVal(is_stop)), z3.Implies(direc, z3.And(z3.BoolVal(is_dir), dir_text)),
